@@ -47,7 +47,7 @@ def cases(tier, seed):
             continue
         for rep in range(1 if tier == 'quick' else 3):
             out.append({'kind': 'program', 'seed': case_seed('C12', seed, prog.name, rep), 'params': {'prog': prog.name, 'P': 1 + rep % 2, 'D': [3, 2, 5][rep % 3]}})
-    for i in range(80 if tier == 'quick' else 1500):
+    for i in range(80 if tier == 'quick' else 6000):
         out.append({'kind': 'program', 'seed': case_seed('C12', seed, 'comp', i), 'params': {'prog': 'comp', 'P': 1 + i % 2, 'D': 2 + i % 4}})
     from .c01 import T as c01_table
     for name in sorted(c01_table().keys()):
